@@ -96,7 +96,7 @@ let replace_all (s : string) (c : char) (by : string) : string =
   let b = Buffer.create (String.length s) in String.iter (fun x -> if x = c then Buffer.add_string b by else Buffer.add_char b x) s; Buffer.contents b
 
 (* ? outside double-quoted identifiers and outside string constants -> $1, $2, ... (PostgreSQL has no ? token) *)
-let number_placeholders (s : string) : string * int =
+let number_placeholders_ml (s : string) : string * int =
   let b = Buffer.create (String.length s + 16) in
   let n = ref 0 and inq = ref false and ins = ref false in
   String.iter (fun c ->
@@ -122,7 +122,7 @@ let check_sql (which : string) (x : qobs) input (sql : string) (nparams : int op
   checked "C02";
   if String.contains sql '\000' then fail "C02" (which ^ ":NUL-byte-in-the-SQL-text") input [("sql", sql)]
   else if not (valid_utf8 sql) then fail "C02" (which ^ ":SQL-text-is-not-valid-UTF-8") input [("sql", sql)];
-  let (text, n) = match nparams with Some _ -> number_placeholders sql | None -> (sql, 0) in
+  let (text, n) = match nparams with Some _ -> number_placeholders_ml sql | None -> (sql, 0) in
   match pg_read (chars_of_string text) with
   | None -> fail "C02" (which ^ ":not-one-boolean-expression-for-PostgreSQL") input [("sql", sql)]; None
   | Some a ->
@@ -397,7 +397,7 @@ let check_semantics (x : qobs) input (e : expr) =
                 if not (is_bad o.(9)) && eflag o.(9) = "|0" then begin
                   match xtext o.(9) with
                   | Some psql ->
-                    let (numbered, _) = number_placeholders psql in
+                    let (numbered, _) = number_placeholders_ml psql in
                     let ps = List.filter_map rval_of_param (String.split_on_char ',' (params_of o.(9))) in
                     (match pg_read (chars_of_string numbered) with
                      | Some pa ->
@@ -448,9 +448,9 @@ let check_sqltoks_param (x : qobs) input (e : expr) =
         let long_name = exists_node (fun n -> match n with E (VCol c, _, _, _, _) -> List.length c > 63 | _ -> false) e in
         if not long_name then begin
           bump "corr.SqlToksP";
-          let (numbered, _) = number_placeholders sql in
+          (* the numbering is the specification's own (Spec/SqlFragP.number_placeholders, extracted): the function the C04 theorems are about *)
           let shown = String.concat "," (List.map show_value ps) in
-          if pg_lex (chars_of_string numbered) <> ts || shown <> params_of o.(9) then
+          if pg_lex (number_placeholders (chars_of_string sql)) <> ts || shown <> params_of o.(9) then
             record_mismatch "SqlToksP" (input @ [("sql", sql); ("params", params_of o.(9)); ("expected_params", shown)])
         end
     | _ -> ()
@@ -782,7 +782,7 @@ let check_giant (x : qobs) input =
     if eflag o.(9) <> "|0" then fail "C04" "inline-succeeds-parameterized-fails" input []
     else match xtext o.(9) with
       | Some sql ->
-          let (_, n) = number_placeholders sql in
+          let (_, n) = number_placeholders_ml sql in
           let ps = params_of o.(9) in
           let k = if ps = "" then 0 else List.length (String.split_on_char ',' ps) in
           if n <> k then fail "C04" "placeholder-count-differs-from-parameter-count" input [("placeholders", string_of_int n); ("parameters", string_of_int k)]
